@@ -29,6 +29,7 @@ Definition limit (i : ident) : option nat :=
   | IdNflog _ | IdNflogRule _ _ _ _ _ => Some limit_nflog
   | IdVeth _ _ => Some limit_ifname
   | IdVMHandle _ _ _ => Some limit_handle
+  | IdStaticChain _ => Some limit_chain_iptables
   end.
 
 (* ---------- boolean equalities ---------- *)
@@ -63,6 +64,7 @@ Definition ident_eqb (a b : ident) : bool :=
       N.eqb a a' && N.eqb o o' && N.eqb d d' && N.eqb i i' && pid_eqb x x'
   | IdVeth n p, IdVeth n' p' => beq n n' && beq p p'
   | IdVMHandle n s v, IdVMHandle n' s' v' => beq n n' && beq s s' && beq v v'
+  | IdStaticChain k, IdStaticChain k' => Nat.eqb k k'
   | _, _ => false
   end.
 
@@ -90,6 +92,7 @@ Definition space_of (i : ident) : space :=
   | IdNflogRule _ _ _ _ _ => SpNflogRule
   | IdVeth _ _ => SpVeth
   | IdVMHandle _ _ _ => SpHandle
+  | IdStaticChain _ => SpChain false
   end.
 
 (* group chains are programmed into whichever dataplane is active: they share a namespace with
@@ -100,6 +103,7 @@ Definition same_space (a b : ident) : bool :=
   | SpChain n, SpChain n' =>
       match a, b with
       | IdGroup _ _ _, _ | _, IdGroup _ _ _ => true
+      | IdStaticChain _, _ | _, IdStaticChain _ => true    (* fixed chains exist in both dataplanes *)
       | _, _ => Bool.eqb n n'
       end
   | SpSet, SpSet => true
@@ -149,6 +153,7 @@ Definition in_domain (i : ident) : bool :=
   (* the CNI network name must be non-empty (empty means the default network), dot-free and short;
      namespaces are DNS labels *)
   | IdVMHandle net ns _ => nonempty net && negb (has dot net) && (length net <=? 60) && negb (has dot ns)
+  | IdStaticChain k => k <? length static_chains
   end.
 
 (* ---------- one observation = identity + what the implementation returned (twice) ---------- *)
